@@ -11,7 +11,7 @@ func init() {
 	register(&propDef{
 		id: "C42", title: "Reliable point-to-point delivery is ordered and gap-free under message faults",
 		technique: "typestate-style guard dominance on the CFG (edge facts), field write tables with value shapes, who-may-call confinement and type-switch coverage over the producer and consumer controllers",
-		explanation: "Decides the structural safety skeleton of the reliable-delivery protocol: CONSUMER (1) a Delivery is created only in deliverFrame, reached only through deliver/assemble, which are called only on edges where nothing is in flight and the message (or the head of the buffer) carries exactly expectedSeq; (2) expectedSeq changes only on session adoption (to the acked NextSeq) and on a Confirmed that matches the in-flight delivery's session, MessageID and sequence, where it becomes inFlight.Seq()+1; inFlight is set only to the freshly built Delivery and cleared only by those two events; (3) the only re-presentation is the tick re-telling the in-flight delivery while it is non-nil; every Request/Ack carries confirmedSeq; a RegistrationAck announces confirmedSeq+1. PRODUCER (4) sequences are assigned contiguously: every store proposes currentSeq+1, currentSeq is written only from the store result / prepared chunk run, and each append to the unconfirmed buffer is paired with that write; (5) entries leave the unconfirmed buffer only in advanceConfirmed, as the prefix whose Seq ≤ the confirmation, and a confirmation is applied only from the authenticated consumer after the range check ConfirmedSeq ≤ currentSeq; (6) resend happens only for timeout requests and goes through the demand-checked emitter (C43); (7) both Receive switches dispatch every protocol message type. Eventual confirmation and the behaviour over all loss/duplication/reordering histories (liveness, and that these guards compose into a gap-free order) are NOT decided. Added after seed C42a: an accepted RegistrationAck always ends in a timeout Request (constant viaTimeout=true) — the silent-tick recovery chain is the only way a lost tail message (no gap visible) is resent.",
+		explanation: "Decides the structural safety skeleton of the reliable-delivery protocol: CONSUMER (1) a Delivery is created only in deliverFrame, reached only through deliver/assemble, which are called only on edges where nothing is in flight and the message (or the head of the buffer) carries exactly expectedSeq; (2) expectedSeq changes only on session adoption (to the acked NextSeq) and on a Confirmed that matches the in-flight delivery's session, MessageID and sequence, where it becomes inFlight.Seq()+1; inFlight is set only to the freshly built Delivery and cleared only by those two events; (3) the only re-presentation is the tick re-telling the in-flight delivery while it is non-nil; every Request/Ack carries confirmedSeq; a RegistrationAck announces confirmedSeq+1. PRODUCER (4) sequences are assigned contiguously: every store proposes currentSeq+1, currentSeq is written only from the store result / prepared chunk run, and each append to the unconfirmed buffer is paired with that write; (5) entries leave the unconfirmed buffer only in advanceConfirmed, as the prefix whose Seq ≤ the confirmation, and a confirmation is applied only from the authenticated consumer after the range check ConfirmedSeq ≤ currentSeq; (6) resend happens only for timeout requests and goes through the demand-checked emitter (C43); (7) both Receive switches dispatch every protocol message type. Eventual confirmation and the behaviour over all loss/duplication/reordering histories (liveness, and that these guards compose into a gap-free order) are NOT decided. Added after seed C42a: an accepted RegistrationAck always ends in a timeout Request (constant viaTimeout=true) — the silent-tick recovery chain is the only way a lost tail message (no gap visible) is resent. Added after seed C42b: the condition under which handleRequest terminates the flow consists only of the confirmed table of impossible values (negative or future confirmation, inverted or oversized window); nothing compares with the controller's own confirmation state.",
 		assumptions: []string{"actor turn atomicity", "timers eventually fire (liveness)", "the composition of the guards into an inductive invariant over message histories"},
 		minObl:     56,
 		run:        runC42,
@@ -319,6 +319,50 @@ func runC42(c *Ctx) {
 		// resend only for timeout requests
 		hr := c.Func("actor", "producerController.handleRequest")
 		hf := c.NewFlow(hr)
+		// terminal validation: a Request ends the flow (terminate) only for values that no correct consumer can send.
+		// A watermark lower than one already applied is ordinary reordered or duplicated control traffic
+		// (advanceConfirmed ignores it) and must not be terminal: the disjuncts of the guarding condition are the
+		// confirmed table of impossible values, nothing that compares with the controller's confirmation state.
+		{
+			term := c.FuncObj("actor", "producerController.terminate")
+			allowed := map[string]bool{
+				"ConfirmedSeq()<0":                                   true,
+				"ConfirmedSeq()>.currentSeq":                         true,
+				"RequestUpToSeq()<ConfirmedSeq()":                    true,
+				"RequestUpToSeq()>ConfirmedSeq()+" + maxWindowShape(c): true,
+			}
+			nTerm := 0
+			ast.Inspect(hr.Decl.Body, func(n ast.Node) bool {
+				ifs, ok := n.(*ast.IfStmt)
+				if !ok || !containsNode(ifs.Body, func(m ast.Node) bool {
+					call, ok := m.(*ast.CallExpr)
+					return ok && callee(hf.Info, call) == term
+				}) {
+					return true
+				}
+				nTerm++
+				var disj []ast.Expr
+				var flat func(e ast.Expr)
+				flat = func(e ast.Expr) {
+					e = ast.Unparen(e)
+					if be, ok := e.(*ast.BinaryExpr); ok && be.Op == token.LOR {
+						flat(be.X)
+						flat(be.Y)
+						return
+					}
+					disj = append(disj, e)
+				}
+				flat(ifs.Cond)
+				for _, d := range disj {
+					sh := exprShape(hf.Info, d)
+					c.Check(allowed[sh], "request/terminal-only-if-impossible/"+sh, "a Request is terminal only for an impossible demand range (negative or future confirmation, inverted or oversized window), never for a stale but legal one", c.P.Pos(d.Pos()), "terminal condition "+sh+" is not in the table of impossible values")
+				}
+				return true
+			})
+			if nTerm == 0 {
+				c.Undecided("request/terminal-only-if-impossible", "the terminal validation of a Request is found", c.P.Pos(hr.Decl.Pos()), "no if-statement calling terminate in handleRequest")
+			}
+		}
 		resend := c.FuncObj("actor", "producerController.resendUnconfirmed")
 		c.WhoMayCall("who", resend, map[string]string{"actor.(*producerController).handleRequest": "timeout request"})
 		via := hf.BoolEdges(func(e ast.Expr) bool { return isCallNamed(hf.Info, e, "ViaTimeout") }, true)
@@ -350,4 +394,12 @@ func runC42(c *Ctx) {
 		cover("consumerController.Receive", map[string]string{"RegistrationAck": "session adoption", "SequencedMessage": "data", "Confirmed": "business confirmation", "consumerControllerTick": "retry", "Terminated": "peer death", "PostStart": "registration"})
 	})
 	_ = buffer
+}
+
+// maxWindowShape: the shape under which the package constant MaxReliableFlowControlWindow is rendered by exprShape.
+func maxWindowShape(c *Ctx) string {
+	if k, ok := c.pkg("actor").Types.Scope().Lookup("MaxReliableFlowControlWindow").(*types.Const); ok {
+		return k.Val().ExactString()
+	}
+	return "?"
 }
